@@ -4,7 +4,13 @@
  *
  * Operations (coordinates decimal, bytes lowercase hex, `-` = empty):
  *   new L C
- *   text_at l c HEX | textf_at l c HEX | text HEX | textf HEX          r=<returned columns>
+ *   text_at l c HEX | text HEX                    tickit_renderbuffer_textn_at / textn with the exact byte count
+ *   textz_at l c HEX | textz HEX                  tickit_renderbuffer_text_at / text (NUL-terminated: stops at a 00 byte)
+ *   textn_at l c N HEX | textn N HEX              textn_at / textn with N <= bytes given (a prefix), or N = -1 (strlen)
+ *   textf_at l c HEX | textf HEX                  textf_at / textf with the format "%s"
+ *   vtextf_at l c HEX | vtextf HEX                vtextf_at / vtextf (va_list entry points), format "%s"
+ *   textfd_at l c HEX N | textfd HEX N            textf_at / textf with the format "%s%d"
+ *                                                 all of them: r=<returned columns>
  *   erase_at l c n | erase n | erase_to c | skip_at l c n | skip n | skip_to c
  *   char_at l c cp | char cp | hline l c1 c2 style caps | vline l1 l2 c style caps
  *   clear | eraserect t l n c | skiprect t l n c
@@ -13,6 +19,13 @@
  *   save | savepen | restore | reset
  *   getcur                            r=<has>,<line>,<col>  (public cursor queries)
  *   getcells                          r=<public cell queries for lines -1..L, columns -1..C>
+ *   getcell l c LEN                   one cell through the four public cell queries, text buffer of LEN bytes
+ *                                     (LEN = -1: NULL buffer): r=<active>{pen}<n.s.e.w>:<ret>:<buffer>
+ *                                     <buffer> = all LEN bytes afterwards in hex (preset to 0x55), `x` for NULL
+ *   getspan l c LEN MODE              tickit_renderbuffer_get_span; MODE bit 0: info != NULL, bit 1: info->pen != NULL,
+ *                                     bit 2: text buffer != NULL (LEN bytes);
+ *                                     r=<ret>,<is_active>,<n_columns>,<info.len>,<info.text: B = the buffer, N = NULL, U = untouched>,
+ *                                       {pen},<buffer>          (fields of *info are preset: 1, -77, 7777, U, {fg=9,b=1})
  * Observation: `r=<result or -> <dump>`.
  *
  * The render buffer is malloc()ed and vc_line/vc_col are not initialised by tickit_renderbuffer_new;
@@ -109,6 +122,39 @@ static TickitPen *parse_pen(const char *spec)
 
 #define A(i) atoi(argv[i])
 
+static int call_vtextf_at(int line, int col, const char *fmt, ...)
+{
+  va_list args;
+  va_start(args, fmt);
+  int ret = tickit_renderbuffer_vtextf_at(rb, line, col, fmt, args);
+  va_end(args);
+  return ret;
+}
+
+static int call_vtextf(const char *fmt, ...)
+{
+  va_list args;
+  va_start(args, fmt);
+  int ret = tickit_renderbuffer_vtextf(rb, fmt, args);
+  va_end(args);
+  return ret;
+}
+
+/* the buffer handed to the text queries: LEN bytes exactly (so that ASan sees a write past it), filled with 0x55 */
+static char *query_buffer(long len)
+{
+  if(len < 0) return NULL;
+  char *b = malloc(len ? len : 1);
+  memset(b, 0x55, len ? len : 1);
+  return b;
+}
+
+/* the whole buffer after a text query (`x` for a NULL buffer): the bytes written, the terminator if any, then filler */
+static void obs_query_buffer(const char *buf, long len)
+{
+  if(buf) obs_hex(buf, len); else obs("x");
+}
+
 static void engine_op(int argc, char **argv)
 {
   const char *op = argc ? argv[0] : "";
@@ -131,6 +177,48 @@ static void engine_op(int argc, char **argv)
     long n = hex_decode(argv[3], &bytes);
     if(n < 0) { obs("bad-op"); return; }
     ret = tickit_renderbuffer_textf_at(rb, A(1), A(2), "%s", (char *)bytes); have_ret = 1;
+  }
+  else if(strcmp(op, "textz_at") == 0 && argc == 4) {
+    long n = hex_decode(argv[3], &bytes);
+    if(n < 0) { obs("bad-op"); return; }
+    ret = tickit_renderbuffer_text_at(rb, A(1), A(2), (char *)bytes); have_ret = 1;
+  }
+  else if(strcmp(op, "textn_at") == 0 && argc == 5) {
+    long n = hex_decode(argv[4], &bytes);
+    long want = atol(argv[3]);
+    if(n < 0 || want < -1 || want > n) { free(bytes); obs("bad-op"); return; }
+    ret = tickit_renderbuffer_textn_at(rb, A(1), A(2), (char *)bytes, (size_t)want); have_ret = 1;
+  }
+  else if(strcmp(op, "vtextf_at") == 0 && argc == 4) {
+    long n = hex_decode(argv[3], &bytes);
+    if(n < 0) { obs("bad-op"); return; }
+    ret = call_vtextf_at(A(1), A(2), "%s", (char *)bytes); have_ret = 1;
+  }
+  else if(strcmp(op, "textfd_at") == 0 && argc == 5) {
+    long n = hex_decode(argv[3], &bytes);
+    if(n < 0) { obs("bad-op"); return; }
+    ret = tickit_renderbuffer_textf_at(rb, A(1), A(2), "%s%d", (char *)bytes, A(4)); have_ret = 1;
+  }
+  else if(strcmp(op, "textz") == 0 && argc == 2) {
+    long n = hex_decode(argv[1], &bytes);
+    if(n < 0) { obs("bad-op"); return; }
+    ret = tickit_renderbuffer_text(rb, (char *)bytes); have_ret = 1;
+  }
+  else if(strcmp(op, "textn") == 0 && argc == 3) {
+    long n = hex_decode(argv[2], &bytes);
+    long want = atol(argv[1]);
+    if(n < 0 || want < -1 || want > n) { free(bytes); obs("bad-op"); return; }
+    ret = tickit_renderbuffer_textn(rb, (char *)bytes, (size_t)want); have_ret = 1;
+  }
+  else if(strcmp(op, "vtextf") == 0 && argc == 2) {
+    long n = hex_decode(argv[1], &bytes);
+    if(n < 0) { obs("bad-op"); return; }
+    ret = call_vtextf("%s", (char *)bytes); have_ret = 1;
+  }
+  else if(strcmp(op, "textfd") == 0 && argc == 3) {
+    long n = hex_decode(argv[1], &bytes);
+    if(n < 0) { obs("bad-op"); return; }
+    ret = tickit_renderbuffer_textf(rb, "%s%d", (char *)bytes, A(2)); have_ret = 1;
   }
   else if(strcmp(op, "text") == 0 && argc == 2) {
     long n = hex_decode(argv[1], &bytes);
@@ -195,6 +283,42 @@ static void engine_op(int argc, char **argv)
         obs("%d.%d.%d.%d:%ld:", lm.north, lm.south, lm.east, lm.west, tn);
         if(tn >= 0) obs_hex(buf, tn); else obs("x");
       }
+    dump(); return;
+  }
+  else if(strcmp(op, "getcell") == 0 && argc == 4) {
+    int l = A(1), c = A(2);
+    long len = atol(argv[3]);
+    if(len < -1 || len > 65536) { obs("bad-op"); return; }
+    char *buf = query_buffer(len);
+    int a = tickit_renderbuffer_get_cell_active(rb, l, c);
+    long tn = (long)tickit_renderbuffer_get_cell_text(rb, l, c, buf, len < 0 ? 0 : len);
+    TickitRenderBufferLineMask lm = tickit_renderbuffer_get_cell_linemask(rb, l, c);
+    obs("r=%d", a);
+    obs_pen(tickit_renderbuffer_get_cell_pen(rb, l, c));
+    obs("%d.%d.%d.%d:%ld:", lm.north, lm.south, lm.east, lm.west, tn);
+    obs_query_buffer(buf, len);
+    free(buf);
+    dump(); return;
+  }
+  else if(strcmp(op, "getspan") == 0 && argc == 5) {
+    int l = A(1), c = A(2), mode = A(4);
+    long len = atol(argv[3]);
+    if(len < 0 || len > 65536 || mode < 0 || mode > 7) { obs("bad-op"); return; }
+    char *buf = (mode & 4) ? query_buffer(len) : NULL;
+    static char untouched;
+    TickitPen *pen = NULL;
+    if(mode & 2) {
+      pen = tickit_pen_new_attrs(TICKIT_PEN_FG, 9, TICKIT_PEN_BOLD, 1, 0);
+    }
+    struct TickitRenderBufferSpanInfo info = { .is_active = 1, .n_columns = -77, .text = &untouched, .len = 7777, .pen = pen };
+    long ret = (long)tickit_renderbuffer_get_span(rb, l, c, (mode & 1) ? &info : NULL, buf, len);
+    obs("r=%ld,%d,%d,%ld,%c,", ret, (int)info.is_active, info.n_columns, (long)info.len,
+        info.text == &untouched ? 'U' : info.text == NULL ? 'N' : info.text == buf ? 'B' : '?');
+    obs_pen(info.pen);
+    obs(",");
+    obs_query_buffer(buf, len);
+    if(pen) tickit_pen_unref(pen);
+    free(buf);
     dump(); return;
   }
   else { obs("bad-op"); return; }
